@@ -37,4 +37,5 @@ CONF = dict(
  'a model schedule plus the property oracle'),
     timeout_quick=600,
     timeout_thorough=3000,
+    min_cases={'collect': 2101, 'history': 1050},
 )
